@@ -45,6 +45,11 @@ def check(ctx):
     for cls in SIM_CLASSES:
         n_loops += check_step(ctx, cls)
     ctx.floor("C04-b", n_loops, 2, "reachable simulate loops")
+    # C04-g: "the scaled diffusivity at the previous profile": what each concrete class's alpha_scaled returns (through its
+    # MRO and its decorators) is alpha(m) / alpha(m_i) of the fluid, resp. 1 for the ideal reservoir
+    from .recovery import fvf_and_alpha
+
+    fvf_and_alpha(ctx, "C04-g")
     check_all_steps_and_storage(ctx, None, "C04-f")
     check_solver_sites(ctx)
     f = ctx.P.func(RES + "MultiPhaseReservoir.simulate")
